@@ -80,7 +80,9 @@ class IRDen:
                     for j in range(n):
                         syms |= {s.name for s in var[i, j].free_symbols}
             fx = all(fixed.get(s, True) for s in syms) if syms else True
-            out.append({"names": names, "matrix": M, "fix": fx, "level": dist.level, "params": sorted(syms)})
+            mixed = len({bool(fixed.get(s, True)) for s in syms}) > 1
+            out.append({"names": names, "matrix": M, "fix": fx, "level": dist.level, "params": sorted(syms),
+                        "mixed_fix": mixed})
         return out
 
     def env(self, theta, eta, eps, rec, t):
@@ -336,7 +338,9 @@ def compare_parameters(td: TextDen, ird: IRDen, c, prefix="", skip_block_fix=Fal
                     if not close(tb.matrix[i][j], b["matrix"][i][j], 1e-9):
                         raise Mismatch(f"{which} block {k} entry ({i},{j}): text {tb.matrix[i][j]}, model {b['matrix'][i][j]}",
                                        {"text": tb.matrix, "model": b["matrix"]})
-            if not skip_block_fix and not tb.same and bool(tb.fix) != bool(b["fix"]):
+            if b.get("mixed_fix"):
+                c.hit(prefix + "not_judged:block-with-mixed-fixedness")  # not expressible in a $OMEGA BLOCK
+            elif not skip_block_fix and not tb.same and bool(tb.fix) != bool(b["fix"]):
                 raise Mismatch(f"{which} block {k} fixedness: text {tb.fix}, model {b['fix']}")
 
 
